@@ -17,12 +17,12 @@ import (
 	"syscall"
 	"time"
 
+	"github.com/attestantio/go-block-relay/services/blockauctioneer"
 	builderclient "github.com/attestantio/go-builder-client"
 	builderapi "github.com/attestantio/go-builder-client/api"
 	"github.com/attestantio/go-builder-client/api/deneb"
 	builderapiv1 "github.com/attestantio/go-builder-client/api/v1"
 	builderspec "github.com/attestantio/go-builder-client/spec"
-	"github.com/attestantio/go-block-relay/services/blockauctioneer"
 	eth2client "github.com/attestantio/go-eth2-client"
 	consensusapi "github.com/attestantio/go-eth2-client/api"
 	apiv1 "github.com/attestantio/go-eth2-client/api/v1"
@@ -146,10 +146,10 @@ type stubWallet struct {
 	name string
 }
 
-func (w *stubWallet) ID() uuid.UUID   { return w.id }
-func (w *stubWallet) Type() string    { return "sim" }
-func (w *stubWallet) Name() string    { return w.name }
-func (w *stubWallet) Version() uint   { return 1 }
+func (w *stubWallet) ID() uuid.UUID { return w.id }
+func (w *stubWallet) Type() string  { return "sim" }
+func (w *stubWallet) Name() string  { return w.name }
+func (w *stubWallet) Version() uint { return 1 }
 func (w *stubWallet) Accounts(_ context.Context) <-chan e2wtypes.Account {
 	ch := make(chan e2wtypes.Account)
 	close(ch)
@@ -533,7 +533,9 @@ func (r *Relay) SubmitValidatorRegistrations(ctx context.Context, opts *buildera
 }
 
 func (r *Relay) BuilderBid(ctx context.Context, opts *builderapi.BuilderBidOpts) (*builderapi.Response[*builderspec.VersionedSignedBuilderBid], error) {
-	simrt.Crit(func() { r.Bids = append(r.Bids, BidCall{Step: simrt.Step(), T: simrt.Now(), Slot: opts.Slot, Pub: opts.PubKey}) })
+	simrt.Crit(func() {
+		r.Bids = append(r.Bids, BidCall{Step: simrt.Step(), T: simrt.Now(), Slot: opts.Slot, Pub: opts.PubKey})
+	})
 	o, err := r.w.Script.Do(ctx, r.Party, "BuilderBid", nil)
 	if err != nil {
 		return nil, err
